@@ -31,6 +31,12 @@ export { generateHashFromString, generateHashFromNumbers } from "./hash.js";
 
 const JSON_PROTO = Object.getPrototypeOf({});
 
+// a parsed key is always written as an own data property: an input key named "__proto__" (JSON.parse creates it
+// as an own key) must not become the prototype of the result
+function setOwnProperty(result: any, key: any, value: any) {
+  Object.defineProperty(result, key, { value, enumerable: true, writable: true, configurable: true });
+}
+
 function deepmergeConstructor(options: any) {
   // results are fresh objects and every key is written as an own data property, so keys named
   // "constructor", "prototype" or "__proto__" are data like any other and cannot reach a prototype
@@ -2245,7 +2251,7 @@ export class ObjectRuntype extends BaseRuntype {
     if (ctx.objectKeyOrder === "input") {
       for (const k of inputKeys) {
         if (hasOwn.call(this.properties, k)) {
-          acc[k] = this.properties[k].parseAfterValidation(ctx, input[k]);
+          setOwnProperty(acc, k, this.properties[k].parseAfterValidation(ctx, input[k]));
           continue;
         }
 
@@ -2255,7 +2261,7 @@ export class ObjectRuntype extends BaseRuntype {
           if (isValid) {
             const itemParsed = p.value.parseAfterValidation(ctx, v);
             const keyParsed = p.key.parseAfterValidation(ctx, k);
-            acc[keyParsed as any] = itemParsed;
+            setOwnProperty(acc, keyParsed, itemParsed);
           }
         }
       }
@@ -2268,7 +2274,7 @@ export class ObjectRuntype extends BaseRuntype {
         }
         const v = input[k];
         const itemParsed = this.properties[k].parseAfterValidation(ctx, v);
-        acc[k] = itemParsed;
+        setOwnProperty(acc, k, itemParsed);
       }
 
       if (this.indexedPropertiesParser.length > 0) {
@@ -2280,7 +2286,7 @@ export class ObjectRuntype extends BaseRuntype {
             if (isValid) {
               const itemParsed = p.value.parseAfterValidation(ctx, v);
               const keyParsed = p.key.parseAfterValidation(ctx, k);
-              acc[keyParsed as any] = itemParsed;
+              setOwnProperty(acc, keyParsed, itemParsed);
             }
           }
         }
